@@ -56,7 +56,9 @@ EXTENDS Integers, Sequences, FiniteSets, TLC     \* TLC: TLCEval only (TLC passe
                                                  \* evaluates them again at each use; TLCEval makes them values)
 
 CONSTANTS MaxLevel,   \* maxRecursionLevel of dns.go (255)
-          Shape       \* "head" | "nolevel" | "noptrlen" | "nextafter"
+          Shape,      \* "head" | "nolevel" | "noptrlen" | "nextafter"
+          StrictLen   \* FALSE: a name of more than 255 octets is `may` (what the check demands of the code as it is);
+                      \* TRUE: it MUST be an error (RFC 1035 2.3.4) - used to measure the code against the RFC clause
 
 Dot == 46
 At(d, i) == d[i + 1]                          \* octet at 0-based offset i
@@ -75,7 +77,8 @@ RECURSIVE IdealWalk(_, _, _, _, _, _, _, _)
 IdealWalk(d, pos, seg, vis, name, next, ptrs, wire) ==
   IF pos < 0 \/ pos >= Len(d) THEN IdealErr("outside-data")
   ELSE LET b == At(d, pos) IN
-    IF b = 0 THEN [kind |-> "name", why |-> "", name |-> name, next |-> (IF ptrs = 0 THEN pos + 1 ELSE next),
+    IF b = 0 /\ StrictLen /\ wire + 1 > 255 THEN IdealErr("name-over-255")
+    ELSE IF b = 0 THEN [kind |-> "name", why |-> "", name |-> name, next |-> (IF ptrs = 0 THEN pos + 1 ELSE next),
                    may |-> (wire + 1 > 255) \/ (ptrs >= MaxLevel), ptrs |-> ptrs, wire |-> wire + 1]
     ELSE IF b < 64 THEN
       IF pos + 1 + b - seg > 255 THEN IdealErr("run-over-255")
@@ -94,7 +97,8 @@ Ideal(d, off) == IdealWalk(d, off, off, {}, <<>>, 0, 0, 0)
 -----------------------------------------------------------------------------
 (* Impl layer: decodeName(data, offset, buffer, level) of layers/dns.go    *)
 
-Fuel == (MaxLevel + 2) * 600          \* more steps than any run of the code as it is can take on the data sizes used
+\* more steps than the code as it is can take: at most MaxLevel + 1 invocations, each with at most one loop iteration per octet
+Fuel(d) == (MaxLevel + 2) * (Len(d) + 2)
 Frame(off, lvl) == [offset |-> off, index |-> off, start |-> 0, level |-> lvl]
 IInit(off, buf0) == [pc |-> "call", stack |-> <<Frame(off, 1)>>, buf |-> buf0, err |-> "", name |-> <<>>, next |-> 0,
                      steps |-> 0, tags |-> {}, oob |-> FALSE, lo |-> 1000000, depth |-> 1]
@@ -119,7 +123,7 @@ Step(d, st) ==
       n == Len(d)
       k == Len(st.stack)
   IN
-  IF st.steps > Fuel THEN Fail(st, "diverged")
+  IF st.steps > Fuel(d) THEN Fail(st, "diverged")
   ELSE IF st.pc = "call" THEN
     IF f.level > MaxLevel THEN Fail(st, "maxrec")
     ELSE IF f.offset >= n THEN Fail(st, "offhigh")
